@@ -180,6 +180,9 @@ class Individual(metaclass=ABCMeta):
         individual.vector = dictionary['vector']
         individual.costs = dictionary['costs']
         individual.state = dictionary['state']
+        for state in Individual.State:
+            if Individual.to_string(state) == dictionary['state']:
+                individual.state = state
         individual.costs_signed = dictionary['costs_signed']
         individual.population_id = dictionary['population_id']
         individual.algorithm_id = dictionary['algorithm_id']
